@@ -192,6 +192,9 @@ def make_queries(rng, root):
                     t7 = list(texts)
                     t7[j] = d.name + '=-1'
                     B.append(('negative-index', '|'.join(t7)))
+                    t10 = list(texts)
+                    t10[j] = d.name + '=%d' % (rng.choice([2 ** 32, 2 ** 32 + k, 2 ** 33, 2 ** 63 - 1, 2 ** 64, 2 ** 64 + k, 2 ** 31 * 2 + k]))
+                    B.append(('index-beyond-32-bits', '|'.join(t10)))
                     t8 = list(texts)
                     t8[j] = d.name + '=%dx' % k
                     B.append(('garbage-index', '|'.join(t8)))
